@@ -207,6 +207,11 @@ func (r *rec) search(s *search.Search, eng int, fen string, prefix []move.Move, 
 }
 
 func (r *rec) rootWithPrefix(corpus []string) (string, []move.Move, *board.Board) {
+	return r.rootWithPrefixKind(corpus, -1)
+}
+
+// kind: -1 random, 2 = there-and-back shuffle (second/third occurrence of the root)
+func (r *rec) rootWithPrefixKind(corpus []string, kind int) (string, []move.Move, *board.Board) {
 	for {
 		var fen string
 		switch r.rng.Intn(10) {
@@ -225,7 +230,11 @@ func (r *rec) rootWithPrefix(corpus []string) (string, []move.Move, *board.Board
 		}
 		var prefix []move.Move
 		// game prefix: nothing, random moves, or a shuffle that sets up second / third occurrences
-		switch r.rng.Intn(4) {
+		k := r.rng.Intn(4)
+		if kind >= 0 {
+			k = kind
+		}
+		switch k {
 		case 1:
 			for i, n := 0, 1+r.rng.Intn(12); i < n; i++ {
 				lm := proj.Playable(b, r.ms)
@@ -359,7 +368,11 @@ func (r *rec) sweep(corpus []string, K int) {
 func (r *rec) pv(corpus []string, maxDepth int) {
 	eng := 0
 	for !r.full() {
-		fen, prefix, b := r.rootWithPrefix(corpus)
+		kind := -1
+		if r.rng.Intn(10) < 6 {
+			kind = 2 // repetitions in the game history cut variations short
+		}
+		fen, prefix, b := r.rootWithPrefixKind(corpus, kind)
 		r.t++
 		tt := ttSizes[r.rng.Intn(len(ttSizes))]
 		s := search.New(tt)
@@ -367,6 +380,9 @@ func (r *rec) pv(corpus []string, maxDepth int) {
 		fresh := true
 		for ply := 0; ply < 14 && !r.full(); ply++ {
 			rq := request{depth: 2 + r.rng.Intn(maxDepth-1), hard: -1, soft: -1, stop: "none"}
+			if kind == 2 {
+				rq.depth = max(3, maxDepth-r.rng.Intn(3))
+			}
 			switch r.rng.Intn(5) {
 			case 0:
 				rq.soft = 200 + r.rng.Intn(6000)
@@ -418,19 +434,43 @@ func stripTime(line string) string {
 }
 
 // playGame: engine plays both sides; budgets[i] < 0 means "soft limit softs[i]", otherwise hard budget
-func playGame(fen string, plies int, tt int, depth int, softs []int, hards []int) gameLog {
+func newBoard(fen string) *board.Board {
+	if fen == StartPosFEN {
+		return board.StartPos()
+	}
 	b, _ := board.FromFEN(fen)
+	return b
+}
+
+func lastNodes(lines []string) int {
+	n := 0
+	for _, l := range lines {
+		f := strings.Fields(l)
+		for i := 0; i+1 < len(f); i++ {
+			if f[i] == "nodes" {
+				n, _ = strconv.Atoi(f[i+1])
+			}
+		}
+	}
+	return n
+}
+
+// playGame: the engine plays both sides. With hards == nil every search has a soft node limit and is run
+// exactly as the UCI driver runs it (no counters handed in: node counts are read from the info lines);
+// otherwise search i gets the hard budget hards[i].
+func playGame(fen string, plies int, tt int, depth int, softs []int, hards []int) gameLog {
+	b := newBoard(fen)
 	s := search.New(tt)
 	var g gameLog
 	for i := 0; i < plies; i++ {
 		var buf bytes.Buffer
 		cnt := &search.Counters{}
-		opts := []search.Option{search.WithDepth(Depth(depth)), search.WithOutput(&buf), search.WithCounters(cnt)}
+		opts := []search.Option{search.WithDepth(Depth(depth)), search.WithOutput(&buf)}
 		if hards != nil {
 			if i >= len(hards) {
 				break
 			}
-			opts = append(opts, search.WithNodes(hards[i]))
+			opts = append(opts, search.WithNodes(hards[i]), search.WithCounters(cnt))
 		} else {
 			opts = append(opts, search.WithSoftNodes(softs[i%len(softs)]))
 		}
@@ -449,7 +489,11 @@ func playGame(fen string, plies int, tt int, depth int, softs []int, hards []int
 		t1, t2, gn := s.VerifDigest()
 		g.lines = append(g.lines, ls)
 		g.res = append(g.res, fmt.Sprintf("%d %s %s", score, m, p))
-		g.nodes = append(g.nodes, cnt.Nodes)
+		if hards != nil {
+			g.nodes = append(g.nodes, cnt.Nodes)
+		} else {
+			g.nodes = append(g.nodes, lastNodes(append(append([]string{}, ls...), as...)))
+		}
 		g.dig = append(g.dig, fmt.Sprintf("%x-%x-%d", t1, t2, gn))
 		if m == 0 {
 			break
@@ -462,8 +506,11 @@ func playGame(fen string, plies int, tt int, depth int, softs []int, hards []int
 func (r *rec) games(corpus []string, plies int) {
 	for !r.full() {
 		fen := corpus[r.rng.Intn(len(corpus))]
-		if r.rng.Intn(3) == 0 {
+		switch r.rng.Intn(4) {
+		case 0:
 			fen = gen.RandomValid(r.rng, gen.Profile{MinPieces: 6, MaxPieces: 24, PawnBias: 50})
+		case 1:
+			fen = StartPosFEN // boards handed out by board.StartPos(), several alive at once
 		}
 		if b, err := board.FromFEN(fen); err != nil || b.InvalidPieceCount() {
 			continue
